@@ -2320,6 +2320,13 @@ mut("tagged-as-ref-packed-null-test", "break", ["C11"], "Tagged::as_ref tests th
         if self.is_null() {""", """    pub unsafe fn as_ref<'g>(&self) -> Option<&'g T> {
         if self.ptr.is_null() {""")], ["BIT-DELEGATION"])
 
+mut("ok-twin-C05-9-update-state-macro", "benign", [], "all seven count-word CAS loops through one update_state!(word, |old| new [, stamp = e]) macro whose "
+    "'nothing to change: do not write' early exit comes after the stamp was applied (S-C05-9 corrected): a skipped identical write is a "
+    "virtual CAS", [{"patch": "selftest/twins/C05-9-update-state-macro.diff"}])
+mut("ok-dbg-assert-reads-clock", "benign", [], "a debug assertion that reads the global epoch",
+    [ed(U, "    let curr_epoch = global_epoch();\n    let modu: Modular<EPOCH_WIDTH> = Modular::new(curr_epoch as isize + 1);",
+        "    let curr_epoch = global_epoch();\n    debug_assert!(curr_epoch <= global_epoch());\n    let modu: Modular<EPOCH_WIDTH> = Modular::new(curr_epoch as isize + 1);")])
+
 # behaviour-preserving refactorings written by sub-agents told to keep every interleaving's behaviour (selftest/refactors/)
 for f in sorted(glob.glob(os.path.join(HERE, "refactors", "*.diff"))):
     name = os.path.basename(f)[:-5]
